@@ -255,8 +255,8 @@ class NormalizeZScore(Command):
 
     def execute(self, **kwargs):
         arr = kwargs["InFieldName"].result
-        true_threshold = float(kwargs.get("TrueThresholdZScore", 0))
-        false_threshold = float(kwargs.get("FalseThresholdZScore", 1))
+        true_threshold = float(kwargs.get("TrueThresholdZScore", 1))
+        false_threshold = float(kwargs.get("FalseThresholdZScore", 0))
         start = kwargs.get("StartVal", 0)
         end = kwargs.get("EndVal", 1)
 
